@@ -723,4 +723,15 @@ def beam_list(repo: Repo) -> RuleRun:
 beam_list.rule_id = "C08.BEAM-LIST"
 
 
-RULES = [trig_domain, arg_pairing, affine_kinds, sign_flows, circumcentre, reflex_decision, reflex_midpoint, adjust_only_when_needed, validity_tolerance, no_memo, edge_ends, arguments_untouched, collinearity_scale_free, beam_list]
+def none_tests(repo: Repo) -> RuleRun:
+    """'the length of a curve edge is not below its chord': an optional parameter of 0 is a parameter, not a missing one. Same rule as C16.NONE-TESTS."""
+    from ..report import rebrand
+    from . import c16
+
+    return rebrand(c16.none_tests(repo), PROP, "C08.NONE-TESTS")
+
+
+none_tests.rule_id = "C08.NONE-TESTS"
+
+
+RULES = [trig_domain, arg_pairing, affine_kinds, sign_flows, circumcentre, reflex_decision, reflex_midpoint, adjust_only_when_needed, validity_tolerance, no_memo, edge_ends, arguments_untouched, collinearity_scale_free, beam_list, none_tests]
